@@ -36,6 +36,16 @@ var c04CRS = ref.CmdCfg{
 	WindowsNoSpace: `(?:[,;./<>]|[\w-]\s).*`,
 }
 
+// suffix patterns that are one group ending the expression (the shape of the current CRS file): `(?:...|$)`
+var c04Groups = ref.CmdCfg{
+	UnixEvasion:    `[\x5c'\"\[]*`,
+	UnixSuffix:     `(?:[\s<>&|),]|$)`,
+	UnixNoSpace:    `(?:[<>&|),]|$)`,
+	WindowsEvasion: `[\"\^]*`,
+	WindowsSuffix:  `(?:[\s,;]|$)`,
+	WindowsNoSpace: `(?:[,;]|$)`,
+}
+
 // literal blanks and TABs inside the patterns belong to the patterns
 var c04Blanks = ref.CmdCfg{
 	UnixEvasion:    `[\x5c' ]*`,
@@ -70,6 +80,7 @@ func c04Configs() []c04Config {
 		// keys the tool does not know, anywhere in the file, do not make the known ones go away
 		{Name: "crs-like-unknown-keys", Yaml: sp("version: 2\nmaintainer: 'someone'\n" + strings.Replace(c04YamlPlain(c04CRS), "patterns:\n", "patterns:\n  future_pattern:\n    unix: 'x'\n    bsd: 'y'\n", 1) + "other_section:\n  key: [1, 2]\n"), Cfg: c04CRS},
 		{Name: "patterns-with-blanks-inside", Yaml: sp(c04YamlPlain(c04Blanks)), Cfg: c04Blanks},
+		{Name: "suffix-is-one-group", Yaml: sp(c04YamlBlock(c04Groups)), Cfg: c04Groups},
 		{Name: "dummy-with-anchors", Yaml: sp("defaults: &d\n  unix: '_av-u_'\n  windows: '_av-w_'\n" + strings.Replace(c04YamlPlain(dummy), "  anti_evasion:\n    unix: '_av-u_'\n    windows: '_av-w_'\n", "  anti_evasion: *d\n", 1)), Cfg: dummy},
 		{Name: "empty-file", Yaml: sp("")},
 		{Name: "only-unix-evasion", Yaml: sp("patterns:\n  anti_evasion:\n    unix: '[q]*'\n"), Cfg: ref.CmdCfg{UnixEvasion: "[q]*"}},
@@ -408,6 +419,44 @@ func C04(r *core.Run) {
 						res.Err = fmt.Sprintf("program %q generates %q", prog, o.Out)
 					}
 					emit(res)
+				}
+			}
+		}
+		// a word that is the tail of another word of the same block, with every marker, under every configuration:
+		// the shared tail is factored out, what stands before it becomes optional - and must stay optional
+		for _, pair := range [][2]string{{"sh", "zsh"}, {"cat", "zcat"}, {"grep", "egrep"}, {"c", "nc"}, {"a.b", "1a.b"}} {
+			for _, mk := range []string{"", "@", "~"} {
+				for _, shell := range []string{"unix", "windows"} {
+					for _, cfg := range c04Configs() {
+						if cfg.Yaml == nil && cfg.Name != "absent" || cfg.Dir {
+							continue
+						}
+						if idx++; idx%n != shard {
+							continue
+						}
+						for _, order := range [][2]string{{pair[0], pair[1]}, {pair[1], pair[0]}} {
+							prog := "##!> cmdline " + shell + "\n" + order[0] + mk + "\n" + order[1] + mk + "\n##!<\n"
+							want, err := ref.Plain(prog, cfg.Cfg)
+							if err != nil || want == "" {
+								continue
+							}
+							o := inproc.GenerateFresh(roots[cfg.Name], prog)
+							res := bigRes{N: 2, Shell: shell}
+							if o.Kind != inproc.OK {
+								res.Err = prog + " (config " + cfg.Name + "): " + o.Kind + " " + tailStr(o.Msg, 200)
+								emit(res)
+								continue
+							}
+							d, _, derr := rx.Decide(want, o.Out, rx.Subset, rx.Options{ExcludeVT: true})
+							if derr != nil {
+								res.Err = prog + " (config " + cfg.Name + "): output does not parse: " + o.Out
+							} else if !d.Inconclusive && !d.Holds {
+								res.Missed = []string{fmt.Sprintf("%+v", *d.Witness)}
+								res.Err = fmt.Sprintf("program %q (config %s) generates %q, which does not cover the reference %q", prog, cfg.Name, o.Out, want)
+							}
+							emit(res)
+						}
+					}
 				}
 			}
 		}
